@@ -52,6 +52,7 @@ var c20Families = map[string]func(n int) string{
 	"inline-comments":      func(n int) string { return "SELECT a" + strings.Repeat(", a -- c\n", n) + " FROM t" },
 	"block-comments":       func(n int) string { return "SELECT 1 " + strings.Repeat("/* c */ ", n) },
 	"indented-comments":    func(n int) string { return "SELECT 1\n" + strings.Repeat(" ", n) + strings.Repeat("/**/", n) },
+	"not-chain":            func(n int) string { return "SELECT a FROM t WHERE " + strings.Repeat("NOT (", 90) + "a = 1" + strings.Repeat(")", 90) + strings.Repeat(" AND NOT NOT NOT b", n) },
 	"and-chain":            func(n int) string { return "SELECT a FROM t WHERE a = 1" + strings.Repeat(" AND a = 1", n) },
 	"or-chain":             func(n int) string { return "SELECT a FROM t WHERE a = 1" + strings.Repeat(" OR b = 2", n) },
 	"arith-chain":          func(n int) string { return "SELECT 1" + strings.Repeat(" + a * 2", n) + " FROM t" },
@@ -115,7 +116,7 @@ var c20Ops = map[string]c20Op{
 
 func runC20(c *runCtx) {
 	res := c.res
-	res.Rule = "for each input family (30 shapes: long lines, many lines, comment lines, inline and block comments, AND/OR/arithmetic/concatenation chains, wide lists, many statements, set-operation chains, joins, long literals and identifiers, CASE arms, CTEs, CRLF, tabs, non-ASCII) x each entry point (tokenize, parse, AST.SQL, AST.Format, Scan, ScanSQL, ExtractMetadata): user CPU time of the call alone, measured in a child process at sizes n, 2n, 4n (minimum of repeated runs; n raised until the call takes >= 25 ms or the input reaches the size ladder's top); a cell is superlinear when the cost more than triples at both doublings (n log n predicts ~2.1-2.3) and the largest run takes >= 150 ms (distinct = distinct (family, entry point) cells measured)"
+	res.Rule = "for each input family (31 shapes: long lines, many lines, comment lines, inline and block comments, AND/OR/arithmetic/concatenation chains, wide lists, many statements, set-operation chains, joins, long literals and identifiers, CASE arms, CTEs, CRLF, tabs, non-ASCII) x each entry point (tokenize, parse, AST.SQL, AST.Format, Scan, ScanSQL, ExtractMetadata): user CPU time of the call alone, measured in a child process at sizes n, 2n, 4n (minimum of repeated runs; n raised until the call takes >= 25 ms or the input reaches the size ladder's top); a cell is superlinear when the cost more than triples at both doublings (n log n predicts ~2.1-2.3) and the largest run takes >= 150 ms (distinct = distinct (family, entry point) cells measured)"
 	pool := newChildPool()
 	pool.env = []string{"GOMAXPROCS=1"} // the collector runs on the measured thread: user time is that of one thread
 	defer pool.Close()
